@@ -8,7 +8,11 @@ deterministically; nothing of textX is consulted for the expectation.
 
 Grammar family (all choices LL(1) by construction so the derivation is the parse):
   common rules   C<i>: [lead=C<j>] '@kw' [name=ID] elements... [';'|bare trailing child]
-  abstract rules A<i>: alternatives = rule references, optionally decorated 'pre' R 'post',
+  abstract rules A<i>: alternatives = rule references, optionally decorated 'pre' R 'post' and /
+                 or with calls of match rules of their own around the reference (D<i>: keyword |
+                 keyword keyword | keyword / keyword keyword): 'pre' D1 R D2 'post' — a match-rule
+                 NonTerminal before the common rule in one alternative, alternatives made of
+                 match-rule calls only,
                  (common / abstract with larger index / match rule), disjoint FIRST sets
   match rules    M<i>: keyword | keyword keyword | /%[a-z]+/
   elements       keyword, flag ?=, primitive attrs (INT STRING ID BOOL match rule; one/opt/list),
@@ -62,7 +66,35 @@ def gen_traits(rng):
     return sorted(rng.sample(TRAITS, k))
 
 
-def gen_grammar(rng, max_common=6, want_refs=True, want_user=True, want_traits=False, p_user=0.2):
+def _plan_decorations(d, rules, abstracts):
+    """which alternatives of abstract rules get calls of dedicated match rules around their rule
+    reference; every choice from the fork `d` (the main stream is what it was without decorations).
+    Returns [(abstract rule, alternative index, 'mpre' | 'mpost', kind of match rule)]."""
+    plan = []
+    for a in abstracts:
+        for i, alt in enumerate(rules[a]["alts"]):
+            for side, p in (("mpre", 0.3), ("mpost", 0.2)):
+                if d.chance(p):
+                    plan.append((a, i, side, d.weighted([("seq", 5), ("kw", 2), ("choice", 3)])))
+    return plan
+
+
+def _apply_decorations(kw, rules, plan):
+    """dedicated match rules D<i> (fresh keywords: no FIRST / FOLLOW conflicts); `seq` and `choice`
+    leave a NonTerminal in the parse tree, `kw` a Terminal"""
+    decos = []
+    for a, i, side, kind in plan:
+        if a not in rules or i >= len(rules[a]["alts"]):
+            continue
+        name = f"D{len(decos)}"
+        alts = {"seq": [[kw.new(), kw.new()]], "kw": [[kw.new()]], "choice": [[kw.new()], [kw.new(), kw.new()]]}[kind]
+        rules[name] = {"name": name, "kind": "match", "alts": alts}
+        rules[a]["alts"][i][side] = name
+        decos.append(name)
+    return decos
+
+
+def gen_grammar(rng, max_common=6, want_refs=True, want_user=True, want_traits=False, p_user=0.2, abs_deco=True):
     kw = _Kw()
     nc = rng.randint(2, max_common)
     na = rng.randint(0, 3)
@@ -138,6 +170,8 @@ def gen_grammar(rng, max_common=6, want_refs=True, want_user=True, want_traits=F
                 rules[b]["alts"] = [x for x in rules[b]["alts"] if x["rule"] != a]
     obj_targets = commons[1:] + abstracts
     prim_types = ["INT", "STRING", "ID", "BOOL"] + matches
+    # a side stream seeded from the current state without drawing from `rng`
+    deco_plan = _plan_decorations(type(rng)(f"{rng.s}:absdeco"), rules, abstracts) if abs_deco else []
 
     for i, c in enumerate(commons):
         r = rules[c]
@@ -187,7 +221,9 @@ def gen_grammar(rng, max_common=6, want_refs=True, want_user=True, want_traits=F
             r["user"] = rng.choice(["store", "child", "eq"])
             if want_traits:
                 r["traits"] = gen_traits(rng)
-    gram = {"rules": [rules[n] for n in commons + abstracts + matches],
+    # keywords of the decorating match rules are drawn last: all other keywords are what they were
+    decos = _apply_decorations(kw, rules, deco_plan)
+    gram = {"rules": [rules[n] for n in commons + abstracts + matches + decos],
             "comment": rng.chance(0.75),
             "opts": {"auto_init_attributes": rng.chance(0.8), "memoization": rng.chance(0.2),
                      "textx_tools_support": rng.chance(0.15)}}
@@ -337,6 +373,10 @@ def render_grammar(gram):
             alts = []
             for a in r["alts"]:
                 s = a["rule"]
+                if a.get("mpre"):
+                    s = a["mpre"] + " " + s
+                if a.get("mpost"):
+                    s = s + " " + a["mpost"]
                 if a.get("pre"):
                     s = q(a["pre"]) + " " + s
                 if a.get("post"):
@@ -389,7 +429,12 @@ def derive(rng, gram, maxdepth=4):
                 best = min(md[r["alts"][i]["rule"]] for i in idxs)
                 idxs = [i for i in idxs if md[r["alts"][i]["rule"]] == best]
             i = rng.choice(idxs)
-            return {"a": T, "i": i, "v": value(r["alts"][i]["rule"], depth)}
+            out = {"a": T, "i": i}
+            for side in ("mpre", "mpost"):
+                if r["alts"][i].get(side):
+                    out[side] = value(r["alts"][i][side], depth)
+            out["v"] = value(r["alts"][i]["rule"], depth)
+            return out
         node = {"r": T, "n": None, "e": []}
         budget[0] -= 1
         for e in r["elems"]:
@@ -506,7 +551,11 @@ def tokens(gram, tree):
             alt = R[v["a"]]["alts"][v["i"]]
             if alt.get("pre"):
                 out.append(("tok", alt["pre"]))
+            if alt.get("mpre"):
+                val(v["mpre"])
             val(v["v"])
+            if alt.get("mpost"):
+                val(v["mpost"])
             if alt.get("post"):
                 out.append(("tok", alt["post"]))
         else:
@@ -909,15 +958,18 @@ def dump_ptree(L, names):
 
     procs = L.mm._obj_processors
 
-    def rec(node):
+    def rec(node, sep_rule=None):
         if isinstance(node, Terminal):
             try:
                 truthy = bool(procs.get(node.rule_name, lambda x: x)(node.value))
             except Exception:
                 truthy = True
-            return ["t", node.position, len(node.value), node.rule_name == "sep", truthy]
-        kids = [rec(k) for k in node]
+            # separator of a repeat modifier: told by the match that made the node (model.py 817-820:
+            # `sep_rule = getattr(node.rule, "sep", None)` … `n.rule is not sep_rule`), not by its name
+            return ["t", node.position, len(node.value), sep_rule is not None and node.rule is sep_rule, truthy]
         rn = node.rule_name
+        own_sep = getattr(node.rule, "sep", None) if rn.startswith("__asgn") else None
+        kids = [rec(k, own_sep) for k in node]
         if rn.startswith("__asgn"):
             op = rn.split("_")[-1]
             opk = op if op in ("optional", "plain") else "many"
@@ -942,4 +994,35 @@ def dump_ptree(L, names):
         mm.append([ci, [[aid(a.name), a.mult in (MULT_ONEORMORE, MULT_ZEROORMORE), bool(a.cont)]
                         for a in attrs.values()]])
     return {"ptree": tree, "mm": mm}
+
+
+def abs_stats(ptree, acc=None):
+    """abstract-rule nodes with several children in a dumped parse tree, by what model.py 671-683
+    does with them: `differs` = a match-rule NonTerminal comes before the first common / abstract
+    one (the pinned code took the former, the repaired code takes the latter)"""
+    acc = acc if acc is not None else {"nodes": 0, "first_nt_is_result": 0, "differs": 0, "only_match_nts": 0,
+                                       "only_terminals": 0}
+
+    def rec(t):
+        if t[0] != "n":
+            return
+        kind, kids = t[1], t[2]
+        if kind[0] == "abs" and len(kids) > 1:
+            acc["nodes"] += 1
+            nts = [k for k in kids if k[0] == "n"]
+            nonmatch = [i for i, k in enumerate(nts) if k[1][0] != "mat"]
+            if not nts:
+                acc["only_terminals"] += 1
+            elif not nonmatch:
+                acc["only_match_nts"] += 1
+            elif nonmatch[0] == 0:
+                acc["first_nt_is_result"] += 1
+            else:
+                acc["differs"] += 1
+        for k in kids:
+            rec(k)
+
+    if ptree is not None:
+        rec(ptree)
+    return acc
 
